@@ -1,7 +1,7 @@
 (* C01 — Two endpoints built on the library interoperate, even across transport loss.
    Statements only.  Nothing else may be added to this file. *)
 From MQ Require Import Base.Prelude Alloc.Alloc Alloc.AllocProofs Framing.Framing Framing.FramingProofs Conn.Types Conn.ConnRecord Conn.Step
-                       Corr.ConnTrace Conn.Scope Conn.Session Conn.IdsQuota Conn.Own Conn.OwnFrame Conn.OwnStep Conn.Run Conn.PairQos Conn.PairQos0 Conn.PairQos5 Conn.PairSeq Conn.PairSeq5 Conn.PairConc Conn.PairBi Conn.PairConc5 Conn.PairBi5 Conn.PairHandshake5 Conn.PairHandshake311 Conn.PairConcIds Conn.PairConcIds5 Conn.PairBiIds Conn.PairBiIds5 Conn.PairQuiescence Conn.PairManual Conn.PairManual5 Conn.PairManualSeq Conn.PairManualSeq5 Conn.PairHandshakeSeq Conn.SessInv Conn.PairLoss Conn.PairLossAcc Conn.PairLossS Conn.PairHandshakeP Conn.PairLossIds.
+                       Corr.ConnTrace Conn.Scope Conn.Session Conn.IdsQuota Conn.Own Conn.OwnFrame Conn.OwnStep Conn.Run Conn.PairQos Conn.PairQos0 Conn.PairQos5 Conn.PairSeq Conn.PairSeq5 Conn.PairConc Conn.PairBi Conn.PairConc5 Conn.PairBi5 Conn.PairHandshake5 Conn.PairHandshake311 Conn.PairConcIds Conn.PairConcIds5 Conn.PairBiIds Conn.PairBiIds5 Conn.PairQuiescence Conn.PairManual Conn.PairManual5 Conn.PairManualSeq Conn.PairManualSeq5 Conn.PairHandshakeSeq Conn.SessInv Conn.PairLoss Conn.PairLossAcc Conn.PairLossS Conn.PairHandshakeP Conn.PairLossIds Conn.PairLossSIds.
 
 (* what the pair property rests on, each proved for ALL states of one endpoint:
    (i) delivery in any fragmentation is the same byte stream (C09) *)
@@ -744,6 +744,15 @@ Theorem C01_pair_lossy_all_identifiers_released : forall gs gr,
                 qsr s2 = [] /\ qrs s2 = [] /\ c_store (cs s2) = [] /\ forall y, is_used (cs s2) y = false.
 Proof. exact lossy_all_identifiers_released. Qed.
 Print Assumptions C01_pair_lossy_all_identifiers_released.
+
+(* ... and with the SERVER as the publishing side (Conn/PairLossSIds.v) *)
+Theorem C01_pair_server_publishes_all_identifiers_released : forall gs gr,
+  role_server_ok gs = true -> role_client_ok gr = true -> 2 + g_idw gs <= MQTT_PACKET_SIZE_NO_LIMIT ->
+  forall l s, allS gs gr s -> V s -> Forall good_actS l ->
+  exists s1 s2, run_schedS gs gr s l = Some s1 /\ run_schedS gs gr s1 (drainS (measure s1)) = Some s2 /\
+                qsr s2 = [] /\ qrs s2 = [] /\ c_store (cs s2) = [] /\ forall y, is_used (cs s2) y = false.
+Proof. exact server_publishes_all_identifiers_released. Qed.
+Print Assumptions C01_pair_server_publishes_all_identifiers_released.
 
 Theorem C01_fresh_endpoints_complete_quiescence_across_loss : forall gs gr cn ca l,
   1 <= g_idmax gs -> 1 <= g_idmax gr -> role_client_ok gs = true -> role_server_ok gr = true -> 2 + g_idw gs <= MQTT_PACKET_SIZE_NO_LIMIT ->
